@@ -35,7 +35,7 @@ func class(s string) string {
 var unsupportedKinds = []string{"chan", "func", "iface", "unsafeptr", "ustruct",
 	"ustruct1", "ustruct1c", "ustruct0", "ustructblank", "blankfield", "blankonly",
 	"ptrint", "ptrkeystruct", "ustructtag", "recvchan", "sendchan",
-	"ustructblankfunc", "selfptr", "hashmeth", "equalother", "compareother"}
+	"ustructblankfunc", "selfptr", "hashmeth", "equalother", "compareother", "errort", "ustructembed", "ustructtagpct"}
 var positions = []string{"top", "field", "elem", "value", "ptr", "key", "arrayelem", "nested"}
 var typedPlugins = []string{"equal", "equalc", "compare", "hash", "deepcopy", "clone", "gostring", "keys", "sort", "minl", "maxt", "contains", "unique", "set", "unionl", "intersectm", "filter", "mem", "fmap", "join", "tuple", "traverse"}
 
@@ -72,6 +72,14 @@ func unsupported(kind string) *progen.Type {
 			{Name: "B", Type: progen.SliceOf(progen.B("string"))}, {Name: "_", Type: progen.B("string")}}})
 	case "blankonly":
 		return progen.NamedT(&progen.Decl{Name: "BlankOnly", IsStruct: true, Fields: []progen.Field{{Name: "_", Type: progen.B("int")}}})
+	case "errort": // the predeclared error: the one named type that belongs to no package
+		return progen.ErrorT()
+	case "ustructembed": // an unnamed struct with embedded fields (of the package and imported) is legal Go
+		return &progen.Type{Kind: progen.UStruct, Text: "struct {\n\tEmb\n\t*EmbP\n\tA []int\n}",
+			Fields: []progen.Field{{Name: "Emb", Type: progen.B("int")}, {Name: "EmbP", Type: progen.PtrTo(progen.B("int"))}, {Name: "A", Type: progen.SliceOf(progen.B("int"))}}}
+	case "ustructtagpct": // a field tag with a percent sign
+		return &progen.Type{Kind: progen.UStruct, Text: "struct {\n\tA int `fmt:\"%d items\"`\n\tB []int\n}",
+			Fields: []progen.Field{{Name: "A", Type: progen.B("int")}, {Name: "B", Type: progen.SliceOf(progen.B("int"))}}}
 	case "ustructblankfunc": // nothing that could be compared, and not comparable with ==
 		return &progen.Type{Kind: progen.UStruct, Text: "struct{ _ func() }", Fields: []progen.Field{{Name: "_", Type: &progen.Type{Kind: progen.Func, Text: "func()"}}}}
 	case "selfptr": // type SelfP *SelfP
@@ -98,6 +106,8 @@ func kindDecl(kind string) string {
 		return "type BlankOnly struct {\n\t_ int\n}\n\n"
 	case "ptrkeystruct":
 		return "type PKey struct {\n\tA int\n\tP *int\n}\n\n"
+	case "ustructembed":
+		return "type Emb struct {\n\tX int\n}\n\ntype EmbP struct {\n\tY string\n}\n\n"
 	case "selfptr":
 		return "type SelfP *SelfP\n\n"
 	case "hashmeth":
@@ -120,7 +130,7 @@ type faultCase struct {
 
 func goKeyOK(kind string) bool {
 	switch kind {
-	case "chan", "iface", "unsafeptr", "ptrint", "ptrkeystruct", "recvchan", "sendchan", "ustruct1c", "ustruct0", "blankonly", "selfptr":
+	case "chan", "iface", "unsafeptr", "ptrint", "ptrkeystruct", "recvchan", "sendchan", "ustruct1c", "ustruct0", "blankonly", "selfptr", "errort":
 		return true
 	}
 	return false
